@@ -1060,4 +1060,87 @@ theorem toStr_denotes (scale : Nat) (v : Int) : Denotes scale (toStr scale v) v 
       simpa using this
 
 
+
+section
+variable (bits scale : Nat) (hub : 10 ^ 19 ≤ 2 ^ bits) (hsc : 10 ^ scale < 2 ^ (bits - 1))
+include hub hsc
+
+/-- none of the `expect` / `unreachable!` / indexing panics of `from_str` can fire (texts < 2^32 bytes) -/
+theorem fromStr_no_panic (s : List Nat) (hlen : s.length < 2 ^ 32) : fromStr bits scale s ≠ .panic := by
+  have hscI : (10 : Int) ^ scale < (2 : Int) ^ (bits - 1) := by exact_mod_cast hsc
+  unfold fromStr
+  cases hsd : splitDot s with
+  | nil => exact absurd hsd (splitDot_ne_nil s)
+  | cons v0 tl =>
+    simp only
+    by_cases htl : tl.length > 1
+    · rw [if_pos htl]; simp
+    · rw [if_neg htl]
+      cases hp : parseInt bits v0 with
+      | error e => simp
+      | ok ip =>
+        simp only
+        cases hc : chkI bits (ip * (10 : Int) ^ scale) with
+        | none => simp
+        | some su =>
+          simp only
+          cases tl with
+          | nil => simp
+          | cons v1 tl2 =>
+            have htl2 : tl2 = [] := by
+              cases tl2 with
+              | nil => rfl
+              | cons _ _ => simp at htl
+            subst htl2
+            obtain ⟨hs, _, _⟩ := splitDot_two hsd
+            simp only
+            have hv1len : v1.length < 2 ^ 32 := by
+              rw [hs] at hlen; simp at hlen; omega
+            rw [Nat.mod_eq_of_lt hv1len]
+            by_cases hsl : scale < v1.length
+            · rw [if_pos hsl]; simp
+            · rw [if_neg hsl]
+              by_cases hdig : v1.all isDigitByte = true
+              · simp only [hdig, Bool.not_true, Bool.false_eq_true, if_false]
+                have hall1 := all_isDigitByte.mp hdig
+                obtain ⟨hb1, hn1⟩ := intBody_of_digits hall1
+                cases hp1 : parseInt bits v1 with
+                | error e => simp
+                | ok fp =>
+                  simp only
+                  obtain ⟨_, _, hfv⟩ := (parseInt_ok_iff bits hub v1 fp).mp hp1
+                  rw [hb1, if_neg hn1] at hfv
+                  obtain ⟨_, rfl⟩ := hfv
+                  have hK0 : (0 : Int) < (10 : Int) ^ (scale - v1.length) := by positivity
+                  have hKle : (10 : Int) ^ (scale - v1.length) ≤ (10 : Int) ^ scale :=
+                    pow_le_pow_right₀ (by norm_num) (by omega)
+                  have hc1 : chkI bits ((10 : Int) ^ (scale - v1.length)) =
+                      some ((10 : Int) ^ (scale - v1.length)) := by
+                    refine chkI_some.mpr ⟨?_, rfl⟩
+                    unfold InRange; constructor <;> linarith
+                  rw [hc1]
+                  simp only
+                  have hFlt : dval v1 < 10 ^ v1.length := dval_lt v1 hall1
+                  have hpowsplit : (10:Int) ^ v1.length * (10:Int) ^ (scale - v1.length) = (10:Int) ^ scale := by
+                    rw [← pow_add]; congr 1; omega
+                  have hFP : (dval v1 : Int) * (10 : Int) ^ (scale - v1.length) < (10 : Int) ^ scale := by
+                    rw [← hpowsplit]
+                    have : (dval v1 : Int) < (10:Int) ^ v1.length := by exact_mod_cast hFlt
+                    exact mul_lt_mul_of_pos_right this hK0
+                  have hF0 : (0 : Int) ≤ (dval v1 : Int) * (10 : Int) ^ (scale - v1.length) := by positivity
+                  have hc2 : chkI bits ((dval v1 : Int) * (10 : Int) ^ (scale - v1.length)) =
+                      some ((dval v1 : Int) * (10 : Int) ^ (scale - v1.length)) := by
+                    refine chkI_some.mpr ⟨?_, rfl⟩
+                    unfold InRange; constructor <;> linarith
+                  rw [hc2]
+                  simp only
+                  split
+                  · split <;> simp
+                  · split <;> simp
+              · simp only [hdig, Bool.not_false, if_true]
+                simp
+
+end
+
+
 end Radix.DecimalText
